@@ -395,20 +395,18 @@ def predicates(case, r, max_passes):
                     if case["kinds"][i] == case["kinds"][j]:
                         if [byid[i][x][:2] for x in idl[i]] != [byid[j][x][:2] for x in idl[j]]:
                             return "same-kind inputs %d and %d are not row-aligned in call %d..%d" % (i, j, s, e)
-    # 5. totality below the pass limit (law-abiding inputs, one dependency per kind): the outcome is determined
-    #    by the rows and the pacemaker's boundaries alone
+    # 5. totality below the pass limit (law-abiding inputs, one dependency per kind).  Stated independently of
+    #    which dependency the implementation picks as pacemaker: every chunk end of every dependency must have a
+    #    shallow staircase and no dependency may reach the common end before its last chunk.
     if law_abiding(case) and len(set(case["kinds"])) == n and not case["ex"]:
-        pm = pacemaker_of(case)
         lo, hi = case["deps"][0][0]["s"], case["deps"][0][-1]["e"]
         deep = None
-        for c in case["deps"][pm]:
-            ok, _ = stair_ok(R, c["e"], max_passes, lo)
+        for y in sorted({c["e"] for cs in case["deps"] for c in cs}):
+            ok, _ = stair_ok(R, y, max_passes, lo)
             if not ok:
-                deep = c["e"]
+                deep = y
                 break
-        # a dependency other than the pacemaker that reaches the common end before its last chunk keeps
-        # zero-duration chunks back: "terminated without fetching last" (loud)
-        trailing = any(i != pm and any(c["e"] == hi for c in cs[:-1]) for i, cs in enumerate(case["deps"]))
+        trailing = any(c["e"] == hi for cs in case["deps"] for c in cs[:-1])
         # Only the positive direction is part of the property (C08_iter_total_below_pass_limit): shallow
         # staircases and no chunk kept back => no error.  That a deep staircase / a trailing chunk DOES raise is
         # how the code behaves today (pinned by the model comparison), not something C08 demands.
